@@ -17,6 +17,12 @@ func show(args []string) {
 	seed, _ := strconv.ParseInt(args[1], 10, 64)
 	idx, _ := strconv.Atoi(args[2])
 	c := gen.Generate(args[0], seed, idx, "quick")
+	if args[0] == "contention" {
+		c = gen.Contention(seed, idx, "quick")
+	}
+	if n, err := strconv.Atoi(os.Getenv("VERIF_SHOW_CYCLES")); err == nil && n > 0 {
+		c.Cycles = n
+	}
 	fmt.Printf("config: %+v\nfaults: %+v world: %+v cycles=%d\n", c.Config, c.Faults, c.World, c.Cycles)
 	for _, n := range c.Objects.Nodes {
 		fmt.Printf("node %s alloc=%v labels=%v taints=%v unsched=%v cond=%v\n", n.Name, k8sm.Allocatable(n), n.Labels, n.Spec.Taints, n.Spec.Unschedulable, n.Status.Conditions[0].Status)
